@@ -18,6 +18,9 @@ the code as written:
   runs the precedence −1 invalidation watchers of every node and then the
   precedence 0 consumers (`where` triggers, `.rx.watch` callbacks) in
   registration order, stopping at the first one that raises;
+* a Parameter that holds an expression as a reference (`Stmt.ref`) is a holder whose `_sync_refs`
+  watcher (precedence −1, registered after the invalidators of every node the expression reads)
+  re-reads the expression before the precedence-0 consumers run;
 * `run` is `_resolve` / `_obj` / `eval_function_with_deps` / `resolve_value`.
 
 Values, exception classes and operator names are abstract; their semantics is
